@@ -2,6 +2,7 @@ package profiles
 
 import (
 	"fmt"
+	"strings"
 	"testing"
 
 	"verif.local/sim/cluster"
@@ -90,6 +91,31 @@ func (p c07) Gen(r *simhook.Rand, tier string, idx int) harness.Scenario {
 		}
 		sc.Conns = append(sc.Conns, cs)
 	}
+	if r.Chance(1, 10) {
+		// class "refresh-in-flight": the layout changes exactly while the reply of a periodic CLUSTER NODES request is
+		// on its way back (it still describes the old layout), and a request is redirected before that reply has been
+		// processed.  The redirection must cause one more refresh round; a minute later the same key must be routed
+		// directly (the next periodic refresh is two minutes away).
+		sc.Class = "refresh-in-flight"
+		sc.IdleFaults = false
+		if sc.Env.Masters < 2 {
+			sc.Env.Masters = 2
+			m = 2
+			keys = keysForNodes(r, m, "h", 3)
+		}
+		sc.SlackMs = []int{0, 1, 1000}[r.Intn(3)]
+		src := r.Intn(m)
+		k := keys[src][r.Intn(len(keys[src]))]
+		dst := (src + 1 + r.Intn(m-1)) % m
+		slot := cluster.Slot([]byte(k))
+		sc.Conns = []ConnScript{{Name: "c0", Reqs: []world.Request{
+			{Args: world.Bins("GET", k), Wait: true},
+			{Args: world.Bins("GET", k), Wait: true, Gap: 60000},
+		}}}
+		sc.Faults = []Fault{{Kind: "layout", From: slot, To: slot, Dst: dst, OnCmd: "cluster", Nth: 2 + r.Intn(2)}}
+		sc.Probes, sc.Probes2 = nil, nil
+		return sc
+	}
 	// faults
 	class := r.Intn(5)
 	node := r.Intn(m)
@@ -150,6 +176,9 @@ func (p c07) Gen(r *simhook.Rand, tier string, idx int) harness.Scenario {
 func (p c07) Run(t *testing.T, s harness.Scenario) harness.Outcome {
 	sc := s.(*RedisScenario)
 	w := newRedisWorld(sc)
+	if sc.Class == "refresh-in-flight" {
+		return p.runRefreshInFlight(t, sc, w)
+	}
 	w.fin = func(w *redisWorld) *simrtViolation {
 		if w.probeRound < 1 {
 			return nil
@@ -227,6 +256,57 @@ func (p c07) Run(t *testing.T, s harness.Scenario) harness.Outcome {
 		nf += n
 	}
 	out.Nontrivial = w.probeRound >= 1 && len(w.faultSteps) > 0
+	return out
+}
+
+// runRefreshInFlight: see the class comment in Gen.
+func (p c07) runRefreshInFlight(t *testing.T, sc *RedisScenario, w *redisWorld) harness.Outcome {
+	key := string(sc.Conns[0].Reqs[0].Args[1])
+	w.step = func(w *redisWorld) *simrtViolation {
+		for _, c := range w.env.Clients {
+			if c.Gate == nil {
+				// the first request waits for the layout change
+				c.Gate = func(c *world.Client, idx int) bool { return idx > 0 || (len(w.fired) > 0 && w.fired[0]) }
+			}
+			if len(w.fired) > 0 && w.fired[0] && len(c.Sent) == 0 {
+				c.Kick()
+			}
+		}
+		return nil
+	}
+	w.fin = func(w *redisWorld) *simrtViolation {
+		var c *world.Client
+		for _, x := range w.env.Clients {
+			c = x
+		}
+		if c == nil || len(c.Sent) < 2 || !c.Sent[0].Answered || !c.Sent[1].Answered {
+			return nil // liveness is the common oracle's business
+		}
+		for _, sn := range c.Sent {
+			if sn.Reply.IsErr() {
+				return &simrtViolation{Clause: "error-only-while-unreachable", Detail: fmt.Sprintf("GET %q got %s although every node is reachable", key, sn.Reply.String())}
+			}
+		}
+		// what did the nodes see of the two GETs?  redirections before the second GET was sent belong to the first
+		first, second := 0, 0
+		for _, le := range w.env.Cluster.Log {
+			if le.Accepted || len(le.Args) != 2 || !strings.EqualFold(string(le.Args[0]), "get") || string(le.Args[1]) != key {
+				continue
+			}
+			if le.Step < c.Sent[1].InvokeStep {
+				first++
+			} else {
+				second++
+			}
+		}
+		w.rt.Probe(fmt.Sprintf("c07.first-get-redirections-%d", first))
+		if first > 0 && second > 0 {
+			return &simrtViolation{Clause: "routing-converges", Detail: fmt.Sprintf("GET %q was redirected %d time(s) when its slot had just moved; one simulated minute later, with every node reachable and no further layout change, the same GET was redirected again (%d time(s)): the redirection did not lead to a refresh round that picked up the new layout", key, first, second)}
+		}
+		return nil
+	}
+	out := runRedis(t, sc, w)
+	out.Nontrivial = len(w.faultSteps) > 0 && w.faultSteps[0] >= 0
 	return out
 }
 
